@@ -2640,12 +2640,55 @@ func writeBodyFixedSize(w *bufio.Writer, r io.Reader, size int64) error {
 		}
 	}
 
-	n, err := copyBodyStream(w, r)
+	fw := fixedSizeBodyWriter{w: w, left: size}
+	n, err := copyBodyStream(&fw, r)
 
 	if n != size && err == nil {
 		err = fmt.Errorf("copied %d bytes from body stream instead of %d bytes", n, size)
 	}
 	return err
+}
+
+var errBodyStreamTooLong = errors.New("body stream is longer than the declared size")
+
+// fixedSizeBodyWriter passes at most left bytes to w, so a body stream yielding
+// more bytes than its declared size cannot break the framing of the message.
+type fixedSizeBodyWriter struct {
+	w    *bufio.Writer
+	left int64
+}
+
+func (fw *fixedSizeBodyWriter) Write(p []byte) (int, error) {
+	if int64(len(p)) > fw.left {
+		n, err := fw.w.Write(p[:fw.left])
+		fw.left -= int64(n)
+		if err == nil {
+			err = errBodyStreamTooLong
+		}
+		return n, err
+	}
+	n, err := fw.w.Write(p)
+	fw.left -= int64(n)
+	return n, err
+}
+
+// ReadFrom keeps the sendfile path of bufio.Writer.ReadFrom available.
+func (fw *fixedSizeBodyWriter) ReadFrom(r io.Reader) (int64, error) {
+	if lr, ok := r.(*io.LimitedReader); ok && lr.N <= fw.left {
+		// r is already bounded by the declared size.
+		n, err := fw.w.ReadFrom(r)
+		fw.left -= n
+		return n, err
+	}
+	n, err := fw.w.ReadFrom(&io.LimitedReader{R: r, N: fw.left})
+	fw.left -= n
+	if err == nil && fw.left <= 0 {
+		var probe [1]byte
+		if nn, _ := r.Read(probe[:]); nn > 0 {
+			err = errBodyStreamTooLong
+		}
+	}
+	return n, err
 }
 
 func copyBodyStream(w io.Writer, r io.Reader) (int64, error) {
